@@ -346,7 +346,8 @@ pub fn merge(client: impl Jar, server: impl Jar) -> Result<ParsedJar<ClassRepr, 
 				},
 				content: JarEntryEnum::Other(b"Manifest-Version: 1.0\nMain-Class: net.minecraft.client.Main\n".to_vec()),
 			},
-			name if name.starts_with("META-INF/") && (name.ends_with(".SF") || name.ends_with(".RSA")) => {
+			// the signature file and the signature block files of a signed jar (RSA, DSA or EC key)
+			name if name.starts_with("META-INF/") && [".SF", ".RSA", ".DSA", ".EC"].iter().any(|extension| name.ends_with(extension)) => {
 				// remove these from the jar
 				continue;
 			},
